@@ -147,7 +147,7 @@ class Contract:
             type_ok = tuple(edge.label.type) == tuple(replacement.type)
             try:
                 res = orig(graph, edge, replacement)
-            except ValueError:
+            except Exception:
                 if type_ok:
                     raise
                 if list(graph.nodes()) != pre_nodes or list(graph.edges()) != pre_edges or tuple(graph.ext) != pre_ext:
@@ -296,9 +296,7 @@ def run_case(tier, seed, index, spec=None, tree=None):
             if out['ok']:
                 if not any(v['sig'].startswith('contract:wrong-type') for v in viols):
                     viols.append(C.viol('contract:wrong-type-accepted', 'replace_edge accepted a replacement of another type'))
-            elif out['exc_type'] != 'ValueError':
-                viols.append(C.viol(f"wrong-type:{out['exc_type']}", f'expected ValueError, got {out["exc"]}'))
-            elif GI.snap_graph(g) != before:
+            elif GI.snap_graph(g) != before:      # any exception is a rejection
                 viols.append(C.viol('contract:rejected-replacement-changed-host', 'host changed by a rejected replacement'))
         # (c) derive()
         if not viols:
